@@ -333,6 +333,7 @@ pub fn run_adversarial(cfg: &Value) -> Value {
     let mut statements = Vec::new();
     let mut proofs = Vec::new();
     let mut transcripts = Vec::new();
+    let mut all_raw: Vec<(Vec<[u8; 32]>, Vec<Value>)> = Vec::new();
     let mut infos = Vec::new();
     for (i, mc) in cfg["members"].as_array().unwrap().iter().enumerate() {
         let m = mc["m"].as_u64().unwrap_or(1) as usize;
@@ -427,12 +428,20 @@ pub fn run_adversarial(cfg: &Value) -> Value {
         let mut bytes = vec![tag as u8];
         let mut elems = Vec::new();
         let mut raw: Vec<[u8; 32]> = Vec::new();
-        for e in 0..(nd1 + 5 + 2 * rounds) {
-            let is_point = !matches!(role(nd1, e).0, "d1" | "r1" | "s1");
-            let (b, id) = env::new_elem(is_point, &format!("pe_{}_{}", i, e));
-            elems.push(id);
-            raw.push(b);
+        // same_proof_as: k — this member presents the very same proof BYTES as member k (under its own statement and transcript)
+        let reuse = mc["same_proof_as"].as_u64().map(|k| k as usize).filter(|k| *k < all_raw.len() && all_raw[*k].0.len() == nd1 + 5 + 2 * rounds);
+        if let Some(k) = reuse {
+            raw = all_raw[k].0.clone();
+            elems = all_raw[k].1.clone();
+        } else {
+            for e in 0..(nd1 + 5 + 2 * rounds) {
+                let is_point = !matches!(role(nd1, e).0, "d1" | "r1" | "s1");
+                let (b, id) = env::new_elem(is_point, &format!("pe_{}_{}", i, e));
+                elems.push(id);
+                raw.push(b);
+            }
         }
+        all_raw.push((raw.clone(), elems.clone()));
         if let Some(sp) = mc["undecodable_elems"].as_array() {
             for e in sp {
                 let e = e.as_u64().unwrap() as usize;
